@@ -483,6 +483,12 @@ def random_pi_project(rng):
     # pointer parameters: registers that are never overwritten and are dereferenced at small constant offsets
     # (checked under the analysis' assumption that parameter objects alias neither each other nor the stack frame)
     ptr_regs = rng.choice([[], [], ["RDI"], ["RDI", "RSI"], ["RSI"]])
+    with_calls = rng.random() < 0.35
+    if with_calls:
+        # a call clobbers the parameter registers; a store through such a register afterwards is a store through an unknown
+        # pointer, which the analysis (by design) assumes not to alias tracked memory
+        ptr_regs = []
+        dst_regs = list(PI_REGS)
     dst_regs = [r for r in PI_REGS if r not in ptr_regs]
     small = lambda: C(rng.choice([0, 1, 2, 3, 4, 5, 7, 8, 10, 16, 100, 0xFF, 0x300, 0x500, 0x5000, 0xFFFFFFFFFFFFFFFF, 0xFFFFFFFFFFFFFFF8, 0x7FFFFFFFFFFFFFFF, 0x8000000000000000, rng.randrange(0, 64)]))  # noqa: E731
 
@@ -613,6 +619,14 @@ def random_pi_project(rng):
                 jm = [jmp(ids, "cbranch", target="blk_1", cond=cmp_expr()), jmp(ids, "branch", target="blk_2")]
             elif join_fragment and i in (1, 2):
                 jm = [jmp(ids, "branch", target="blk_3")]
+            elif with_calls and r < 0.2:
+                # call of an extern function; usually preceded by the push of the return address as lifted x86 code does it
+                if rng.random() < 0.8:
+                    defs.append(assign(ids, var("RSP"), B("IntSub", V("RSP"), C(8))))
+                    defs.append(store(ids, V("RSP"), C(0x401000 + 16 * i)))
+                if rng.random() < 0.5:
+                    defs.insert(len(defs) - 2 if len(defs) >= 2 else 0, assign(ids, var("RDI"), rng.choice([small(), stack_addr(), V(rng.choice(PI_REGS))])))
+                jm = [jmp(ids, "call", target=rng.choice(["ext_malloc", "ext_f"]), ret=tids[i + 1])]
             elif r < 0.65:
                 cond = V(rng.choice(["ZF", "CF", "SF"]), 1) if (rng.random() < 0.4 and any(d["k"] == "assign" and d["var"]["size"] == 1 for d in defs)) else cmp_expr()
                 if cond["k"] == "var":
@@ -624,6 +638,7 @@ def random_pi_project(rng):
                 jm = [jmp(ids, "branch", target=fwd)]
         blocks.append(blk(t, defs, jm))
     p = project(blocks, [])
-    p["externs"] = []
+    p["externs"] = [e for e in p["externs"] if e["name"] == "malloc"] + [
+        {"tid": "ext_f", "name": "f_extern", "cconv": "__stdcall", "no_return": False, "params": [var("RDI"), var("RSI")], "rets": [var("RAX")]}] if with_calls else []
     p["ptr_regs"] = ptr_regs
     return p
